@@ -40,7 +40,7 @@ class G:
         if kind in ("attr", "method", "member") and r < 0.1:
             return self.rng.choice(KW + BECOME_KW)
         base = {"func": ["calc_value_", "run", "get_x_y_", "doIt"], "cls": ["Widget", "DataHolder", "HTTPServer", "C"],
-                "attr": ["count_", "max_val_", "a", "someAttr"], "param": ["p", "arg_", "some_param_"], "method": ["do_", "m", "getX"],
+                "attr": ["count_", "max_val_", "a", "someAttr"], "param": ["p", "arg_", "some_param_", "_", "__"], "method": ["do_", "m", "getX"],
                 "enum": ["Color", "ModeKind"], "member": ["RED_", "low_val_", "M"], "mod": ["mod_", "helpers_", "m"], "tv": ["T", "T_co"]}[kind]
         n = self.rng.choice(base) + self.num()
         return "_" + n if private else n
